@@ -389,3 +389,223 @@ func gbEntryBlock(f *engine.Fn, stmt ast.Node) *cfg.Block {
 	}
 	return best
 }
+
+// ---------------------------------------------------------------------------
+// Facts: polarity-aware reading of gates (robust to if/else inversion, nested
+// ifs vs &&, early-return forms, swapped operands).
+
+// gbFact is a boolean expression known to be true (Pos) or false (!Pos) at a site.
+type gbFact struct {
+	E   ast.Expr
+	Pos bool
+}
+
+// gbSplitFact decomposes (e is pos) into atomic facts: strips ! and parens,
+// splits && on the true side and || on the false side. Unsplittable compounds
+// (¬(a&&b), (a||b)) are kept whole.
+func gbSplitFact(e ast.Expr, pos bool, out *[]gbFact) {
+	e = ast.Unparen(e)
+	switch x := e.(type) {
+	case *ast.UnaryExpr:
+		if x.Op == token.NOT {
+			gbSplitFact(x.X, !pos, out)
+			return
+		}
+	case *ast.BinaryExpr:
+		if (x.Op == token.LAND && pos) || (x.Op == token.LOR && !pos) {
+			gbSplitFact(x.X, pos, out)
+			gbSplitFact(x.Y, pos, out)
+			return
+		}
+	}
+	*out = append(*out, gbFact{e, pos})
+}
+
+// gbFactsOf turns gates into atomic facts and then resolves compounds:
+// ¬(a && b && c) with a, b known true yields ¬c; (a || b) with a known false yields b.
+func gbFactsOf(gates []engine.Gate) []gbFact {
+	var fs []gbFact
+	for _, gt := range gates {
+		gbSplitFact(gt.Cond, gt.OnTrue, &fs)
+	}
+	key := func(e ast.Expr) string { return types.ExprString(ast.Unparen(e)) }
+	for changed, rounds := true, 0; changed && rounds < 4; rounds++ {
+		changed = false
+		known := map[string]bool{} // expr text -> truth
+		has := map[string]bool{}
+		for _, f := range fs {
+			known[key(f.E)] = f.Pos
+			has[key(f.E)] = true
+		}
+		for _, f := range fs {
+			bx, ok := ast.Unparen(f.E).(*ast.BinaryExpr)
+			if !ok {
+				continue
+			}
+			var parts []gbFact
+			switch {
+			case bx.Op == token.LAND && !f.Pos: // not all true
+				var lits []gbFact
+				gbSplitFact(bx, true, &lits)
+				for _, l := range lits { // l.Pos is the polarity needed for the conjunct to be true
+					k := key(l.E)
+					if has[k] && known[k] == l.Pos {
+						continue // conjunct established true
+					}
+					parts = append(parts, l)
+				}
+				if len(parts) == 1 {
+					nf := gbFact{parts[0].E, !parts[0].Pos}
+					if !has[key(nf.E)] {
+						fs = append(fs, nf)
+						changed = true
+					}
+				}
+			case bx.Op == token.LOR && f.Pos: // at least one true
+				var lits []gbFact
+				gbSplitFact(bx, false, &lits) // l.Pos is polarity for the disjunct to be false
+				for _, l := range lits {
+					k := key(l.E)
+					if has[k] && known[k] == l.Pos {
+						continue // disjunct established false
+					}
+					parts = append(parts, l)
+				}
+				if len(parts) == 1 {
+					nf := gbFact{parts[0].E, !parts[0].Pos}
+					if !has[key(nf.E)] {
+						fs = append(fs, nf)
+						changed = true
+					}
+				}
+			}
+		}
+	}
+	return fs
+}
+
+// gbEq reads a fact as an (in)equality: x == y holds (equal=true) or x != y holds.
+func gbEq(f gbFact) (x, y ast.Expr, equal, ok bool) {
+	bx, isB := ast.Unparen(f.E).(*ast.BinaryExpr)
+	if !isB {
+		return nil, nil, false, false
+	}
+	switch bx.Op {
+	case token.EQL:
+		return bx.X, bx.Y, f.Pos, true
+	case token.NEQ:
+		return bx.X, bx.Y, !f.Pos, true
+	}
+	return nil, nil, false, false
+}
+
+// gbCmp reads a fact as an ordering "x op y" that HOLDS, normalised to one of
+// GTR / GEQ with operands possibly swapped (so x > y or x >= y).
+func gbCmp(f gbFact) (x, y ast.Expr, op token.Token, ok bool) {
+	bx, isB := ast.Unparen(f.E).(*ast.BinaryExpr)
+	if !isB {
+		return nil, nil, token.ILLEGAL, false
+	}
+	o := bx.Op
+	switch o {
+	case token.LSS, token.LEQ, token.GTR, token.GEQ:
+	default:
+		return nil, nil, token.ILLEGAL, false
+	}
+	if !f.Pos {
+		o = engine.Negate(o)
+	}
+	x, y = bx.X, bx.Y
+	if o == token.LSS || o == token.LEQ {
+		x, y = y, x
+		o = engine.Flip(o)
+	}
+	return x, y, o, true
+}
+
+// gbFactCall: the fact is (the truth value of) a call; returns the call.
+func gbFactCall(f gbFact) (*ast.CallExpr, bool) {
+	c, ok := ast.Unparen(f.E).(*ast.CallExpr)
+	return c, ok
+}
+
+// gbResolveLocal replaces an identifier that has exactly one definition in
+// the function by its defining expression (repeatedly, bounded).
+func (d *gbDefs) resolveLocal(e ast.Expr) ast.Expr {
+	for i := 0; i < 4; i++ {
+		id, ok := ast.Unparen(e).(*ast.Ident)
+		if !ok {
+			return e
+		}
+		o := d.info.ObjectOf(id)
+		if o == nil || len(d.defs[o]) != 1 {
+			return e
+		}
+		e = d.defs[o][0]
+	}
+	return e
+}
+
+// gbAllExitsPassDeep: every normal exit of f executes a node satisfying match,
+// directly or inside an in-program helper whose own normal exits all pass it.
+// allow may bless exits. Returns the offending exit block (nil = ok) and the
+// number of direct/deep sites found.
+func gbAllExitsPassDeep(f *engine.Fn, depth int, match func(fn *engine.Fn, n ast.Node) bool, allow func(fn *engine.Fn, b *cfgBlock) bool) (*cfgBlock, int) {
+	var sites []*engine.Site
+	engine.InspectBody(f, func(n ast.Node) {
+		if match(f, n) {
+			if s := f.SiteOf(n); s != nil {
+				sites = append(sites, s)
+			}
+			return
+		}
+		call, ok := n.(*ast.CallExpr)
+		if !ok || depth <= 0 {
+			return
+		}
+		s := f.SiteOf(call)
+		if s == nil || s.Deferred || s.InGo {
+			return
+		}
+		callee, _ := s.Callee.(*types.Func)
+		h := f.Prog.FnOf(callee)
+		if h == nil || h == f {
+			return
+		}
+		if ex, n := gbAllExitsPassDeep(h, depth-1, match, nil); ex == nil && n > 0 {
+			sites = append(sites, s)
+		}
+	})
+	var al func(b *cfgBlock) bool
+	if allow != nil {
+		al = func(b *cfgBlock) bool { return allow(f, b) }
+	}
+	return gbExitWithout(f, sites, al), len(sites)
+}
+
+// gbExitFacts: facts holding at the end of block b of f.
+func gbExitFacts(f *engine.Fn, b *cfgBlock) []gbFact {
+	if len(b.Nodes) == 0 {
+		return nil
+	}
+	st := f.SiteOf(b.Nodes[len(b.Nodes)-1])
+	if st == nil {
+		return nil
+	}
+	return gbFactsOf(f.Graph().Gates(st))
+}
+
+// gbIsNilCmp: fact is `x == nil` holding (isNil=true) or `x != nil` holding.
+func gbIsNilCmp(f gbFact) (x ast.Expr, isNilHolds, ok bool) {
+	a, b, eq, ok2 := gbEq(f)
+	if !ok2 {
+		return nil, false, false
+	}
+	if isNil(b) {
+		return a, eq, true
+	}
+	if isNil(a) {
+		return b, eq, true
+	}
+	return nil, false, false
+}
